@@ -90,3 +90,27 @@ Proof.
   unfold no_lost_wakeup_at. rewrite (winv_r_no_lost _ R), (winv_s_no_lost _ _ S). reflexivity.
 Qed.
 
+
+(* ---------------------------------------------------------------------------------------- *)
+(* The same theorems stated for the step order the source has (Spsc.code_fixed, generated)   *)
+(* ---------------------------------------------------------------------------------------- *)
+Lemma code_unfixed : code_fixed = false.
+Proof. reflexivity. Qed.
+
+Theorem fifo_exactly_once_code : forall cap sched pp cp, 2 <= cap ->
+  let s := y_st (exec code_fixed cap sched pp cp) in
+  prefix_of (received s) (pushed s) /\ (cpc s = Idle -> ccode s = 4 -> received s = pushed s).
+Proof. rewrite code_unfixed. exact fifo_exactly_once. Qed.
+
+Theorem no_unwritten_slot_code : forall cap sched pp cp, 2 <= cap ->
+  let s := y_st (exec code_fixed cap sched pp cp) in
+  bad s = false /\
+  (cpc s = Work ->
+     hpub s <= nr s /\ nr s < ctc s /\ ctc s <= npub s /\ npub s <= nw s /\
+     head s = hpub s mod cap /\ tail s = npub s mod cap /\ ch s = nr s mod cap /\
+     nth (N.to_nat (ch s)) (slots s) None = Some (nth (N.to_nat (nr s)) (pushed s) 0)).
+Proof. rewrite code_unfixed. exact no_unwritten_slot. Qed.
+
+Theorem no_lost_wakeup_code : forall cap sched pp cp, 2 <= cap ->
+  no_lost_wakeup_at cap (y_st (exec code_fixed cap sched pp cp)) = true.
+Proof. rewrite code_unfixed. exact no_lost_wakeup. Qed.
